@@ -1,0 +1,117 @@
+"""
+Verification hooks (tracing and fault/schedule gates).
+
+Everything in this module is inert unless the environment variable
+CELL_TYPE_MAPPER_VERIF is set to '1' when the module is first imported.
+
+emit(event, **fields)
+    append one JSON line {"pid", "seq", "ev", ...} to
+    $CELL_TYPE_MAPPER_VERIF_DIR/trace.<pid>.ndjson
+    (one file per process, per-process sequence number; wall clock
+    is never used to order events)
+
+gate(point, **ids)
+    emit the event, then obey the rules of the JSON plan named by
+    $CELL_TYPE_MAPPER_VERIF_PLAN that match (point, ids):
+      {"point": str, "match": {id: value}, "wait_for": [token, ...],
+       "write": token, "fault": "kill" | "exit3" | "raise"}
+    wait_for blocks until the token files exist (schedule forcing);
+    a wait that times out ends the process with exit code 97.
+"""
+import json
+import os
+import signal
+import time
+
+_ON = os.environ.get('CELL_TYPE_MAPPER_VERIF') == '1'
+_seq = 0
+_plan = None
+_plan_src = None
+
+
+def on():
+    return _ON
+
+
+def _dir():
+    return os.environ.get('CELL_TYPE_MAPPER_VERIF_DIR')
+
+
+def _clean(value):
+    if isinstance(value, dict):
+        return {str(k): _clean(v) for k, v in value.items()}
+    if isinstance(value, (list, tuple, set)):
+        return [_clean(v) for v in value]
+    if hasattr(value, 'tolist'):
+        return value.tolist()
+    if isinstance(value, (str, int, float, bool)) or value is None:
+        return value
+    return str(value)
+
+
+def emit(event, **fields):
+    if not _ON:
+        return
+    global _seq
+    trace_dir = _dir()
+    if trace_dir is None:
+        return
+    _seq += 1
+    record = {'pid': os.getpid(), 'seq': _seq, 'ev': event}
+    record.update(_clean(fields))
+    line = json.dumps(record) + '\n'
+    path = os.path.join(trace_dir, f'trace.{os.getpid()}.ndjson')
+    fd = os.open(path, os.O_WRONLY | os.O_CREAT | os.O_APPEND, 0o644)
+    try:
+        os.write(fd, line.encode('utf-8'))
+    finally:
+        os.close(fd)
+
+
+def _load_plan():
+    global _plan, _plan_src
+    src = os.environ.get('CELL_TYPE_MAPPER_VERIF_PLAN')
+    if src != _plan_src:
+        _plan_src = src
+        _plan = None
+        if src is not None and os.path.isfile(src):
+            with open(src, 'rb') as in_file:
+                _plan = json.load(in_file)
+    return _plan
+
+
+def _token(name):
+    return os.path.join(_dir(), f'tok.{name}')
+
+
+def gate(point, **ids):
+    if not _ON:
+        return
+    emit(point, **ids)
+    plan = _load_plan()
+    if plan is None:
+        return
+    ids = _clean(ids)
+    for rule in plan.get('rules', []):
+        if rule.get('point') != point:
+            continue
+        if any(ids.get(k) != v for k, v in rule.get('match', {}).items()):
+            continue
+        timeout = rule.get('timeout', 60.0)
+        t0 = time.time()
+        for token in rule.get('wait_for', []):
+            while not os.path.exists(_token(token)):
+                if time.time() - t0 > timeout:
+                    emit('GateTimeout', point=point, token=token)
+                    os._exit(97)
+                time.sleep(0.002)
+        if 'write' in rule:
+            with open(_token(rule['write']), 'w') as out_file:
+                out_file.write(str(os.getpid()))
+        fault = rule.get('fault')
+        if fault == 'kill':
+            os.kill(os.getpid(), signal.SIGKILL)
+        elif fault == 'exit3':
+            os._exit(3)
+        elif fault == 'raise':
+            raise RuntimeError(f'verif injected failure at {point}')
